@@ -393,7 +393,7 @@ func c33GenOps(t *rapid.T) c33Case {
 			op.Idx = sel("script", 0, 6)
 		case "sd":
 			op.Src = sel("src", 1, 1)
-			op.R = rapid.IntRange(0, 7).Draw(t, "mode")
+			op.R = rapid.IntRange(0, 15).Draw(t, "mode")
 		}
 		c.Ops = append(c.Ops, op)
 	}
@@ -880,12 +880,24 @@ func c33Styledown(real ui.Text, m c33Text, mode int, what string) (ok, uncovered
 			overridden['#'] = true
 		}
 	}
+	reused := false
 	for _, st := range used {
 		if dropped != nil && st == *dropped {
 			continue
 		}
 		if builtinStyles[st] && mode&1 == 0 {
 			continue
+		}
+		if mode&8 != 0 && !reused && !builtinStyles[st] {
+			// a style that IS used here takes over the character of a builtin
+			// style: the definition has to win over the builtin meaning
+			ch := []rune{'*', '_', '#'}[len(used)%3]
+			if !overridden[ch] {
+				def(ch, st)
+				overridden[ch] = true
+				reused = true
+				continue
+			}
 		}
 		if next >= len(c33DefChars) {
 			return false, false, nil // more styles than definition characters; not a case
@@ -952,7 +964,7 @@ func c33GenSd(t *rapid.T) c33SdCase {
 			Text:  rapid.SampledFrom(c33SdAtoms).Draw(t, "text0") + c33GenText(t, "text", c33SdAtoms, 3),
 		})
 	}
-	c.Mode = rapid.SampledFrom([]int{0, 0, 0, 1, 1, 2, 3, 4, 5, 6}).Draw(t, "mode")
+	c.Mode = rapid.SampledFrom([]int{0, 0, 0, 1, 1, 2, 3, 4, 5, 6, 8, 8, 9, 10, 12}).Draw(t, "mode")
 	return c
 }
 
@@ -1052,7 +1064,7 @@ func init() {
 	})
 	vs.Register(vs.Prop[c33SdCase]{
 		Name:  "C33/styledown",
-		Rule:  "texts of 0-7 segments over a 15-style palette whose characters have width 1 or 2 or are newlines (the domain of Styledown), including lines that look like configuration lines and style characters; style definitions generated for the styles in use (optionally also for builtin-covered styles, overriding a builtin character, or leaving one style undefined); oracle: Render(Derender(t, defs)) is t in normal form, Derender refuses exactly when a used style has no character; non-trivial = non-empty text",
+		Rule:  "texts of 0-7 segments over a 15-style palette whose characters have width 1 or 2 or are newlines (the domain of Styledown), including lines that look like configuration lines and style characters; style definitions generated for the styles in use (optionally also for builtin-covered styles, overriding a builtin character with an unused or with a used style, or leaving one style undefined); oracle: Render(Derender(t, defs)) is t in normal form, Derender refuses exactly when a used style has no character; non-trivial = non-empty text",
 		Gen:   c33GenSd,
 		Check: c33CheckSd,
 		Class: c33ClassSd,
